@@ -14,8 +14,9 @@ CHECKS = {
         explanation="Structural clauses of thin lines (Line::points()), decided for all inputs on path summaries of Points::{new, next}, major_length, Bresenham::{new, next} and BresenhamParameters::new: "
                     "R17.1 the iterator yields exactly major_length(line) = max(|dx|, |dy|) + 1 points (counter argument: every call with points to go lowers the counter by one and returns one walker step, a call at zero ends); "
                     "R17.2 the walk starts at line.start with error 0; R17.3 one walker step is exactly one major move preceded by at most one minor move and returns the position between them, the step without a minor move being the one taken for error <= threshold (so the first point is start itself); "
-                    "R17.4 in all 8 octants the major axis is that of the larger |delta|, both steps are unit vectors (Point::x_axis / y_axis of a (+-1, +-1) direction) pointing from start to end, the threshold is the non-negative major delta.",
-        claim="Decides for thin lines: number of points, first point, shape of every step (one pixel along the major axis, at most one along the minor axis), axis assignment and step directions. NOT decided: that the minor coordinate arrives at `end`, the half-pixel distance bound (both inductive numeric invariants of the error accumulator), and every clause about stroked lines of width > 1 (perpendicular Bresenham walks with thickness accumulators).",
+                    "R17.4 in all 8 octants the major axis is that of the larger |delta|, both steps are unit vectors (Point::x_axis / y_axis of a (+-1, +-1) direction) pointing from start to end, the threshold is the non-negative major delta; "
+                    "R17.5 (stroked lines, one structural clause) in everything reachable from the line's own styled code the stroke offset that reaches ParallelsIterator::new and Line::extents is the constant StrokeOffset::None, traced through parameters to every caller: the stroke is centred on the line whatever the style's stroke alignment says.",
+        claim="Decides for thin lines: number of points, first point, shape of every step (one pixel along the major axis, at most one along the minor axis), axis assignment and step directions. NOT decided: that the minor coordinate arrives at `end`, the half-pixel distance bound (both inductive numeric invariants of the error accumulator), and the numeric clauses about stroked lines of width > 1 (perpendicular Bresenham walks with thickness accumulators, phase of the parallels); of those only the centring of the stroke (R17.5) is decided.",
         note="Necessary conditions only; the numeric clauses of the property are outside static analysis (DESIGN.md section 6).",
         technique="path-sensitive dataflow summaries over MIR (effects per path), counter/potential argument, complete decision table over the 8 octants",
         trusted_base=TB,
